@@ -1,11 +1,19 @@
 #!/bin/bash
-# Offline setup after a fresh restore: build the harness (plain and -race) from files on disk only.
+# Offline setup after a fresh restore: build every engine of the harness (plain, and -race where a check
+# needs it) from files on disk only. Touches nothing outside /verif and the Go build cache.
 set -eu
 cd "$(dirname "$0")"
 export GOFLAGS=-mod=mod GOPROXY=off
 mkdir -p .build logs evidence
 cp -f /repo/go/go.sum harness/go.sum
-( cd harness && go build -tags verif -o ../.build/vh ./cmd/vh )
-( cd harness && go build -tags verif -race -o ../.build/vh-race ./cmd/vh )
-.build/vh list >/dev/null
-echo "setup ok: $(.build/vh list | wc -l) checks registered"
+for d in harness/cmd/*/; do
+  e=$(basename "$d")
+  ( cd harness && go build -trimpath -tags verif -o "../.build/$e" "./cmd/$e" )
+  for p in $(.build/$e list); do
+    if [ "$(.build/$e needs-race "$p")" = yes ]; then
+      ( cd harness && go build -trimpath -tags verif -race -o "../.build/$e-race" "./cmd/$e" ); break
+    fi
+  done
+  echo "built $e: $(.build/$e list | tr '\n' ' ')"
+done
+echo "setup ok"
